@@ -371,6 +371,10 @@ def judge(ctx, focus, collected, sds):
                     op["label"] = mm.group(1)
                 spec_ops.append(op)
                 spec_meta.append(("relup", inp, impl, (it[0], int(mm.group(3)))))
+            # `rev+N`: exactly N down_revision links above the named revision
+            if mm and mm.group(2) in [r["id"] for r in c["revs"]] and int(mm.group(3)) > 0 and it and len(it) == 1 and it[0] is not None:
+                spec_ops.append({"op": "rev.spec.steps", **h, "n": int(mm.group(3)), "from": it[0], "to": mm.group(2)})
+                spec_meta.append(("usteps", inp, impl, (mm.group(2), int(mm.group(3)), it[0])))
         elif focus.prop == "C02":
             pt = parse_impl_downgrade_target(sd, c["rows"], c["target"])
             if pt is not None and not names_a_branch(c["target"]):
@@ -461,6 +465,10 @@ def judge(ctx, focus, collected, sds):
         elif kind == "relup":
             if a.get("holds") is False:
                 ctx.fail(inp, "target-resolution: relative upgrade target %r from rows %s resolves to %s, which is not exactly %d down_revision links above the applied tip it must count from" % (inp["target"], inp["rows"], extra[0], extra[1]), impl=impl, tags=["resolution", "relup"])
+            k += 1
+        elif kind == "usteps":
+            if a.get("holds") is not True:
+                ctx.fail(inp, "target-distance: relative upgrade target %r resolves to %s, which is not exactly %d down_revision links above %s" % (inp["target"], extra[2], extra[1], extra[0]), impl=impl, tags=["resolution", "distance"])
             k += 1
         elif kind == "dsteps":
             if a.get("holds") is not True:
